@@ -13,6 +13,7 @@ Ops == (IF \E k \in Keys : KeyType(k) = "str"  THEN {o \in StrOps({k \in Keys : 
   \cup (IF \E k \in Keys : KeyType(k) = "list" THEN {o \in ListOps({k \in Keys : KeyType(k) = "list"}, Vals) : "ttl" \in DOMAIN o => o.ttl = "0"} ELSE {})
   \cup (IF \E k \in Keys : KeyType(k) = "hash" THEN {o \in HashOps({k \in Keys : KeyType(k) = "hash"}, Vals) : o.op # "SetExp"} ELSE {})
   \cup (IF \E k \in Keys : KeyType(k) = "ctr"  THEN {o \in CtrOps({k \in Keys : KeyType(k) = "ctr"}) : o.op # "SetExp"} ELSE {})
+  \cup {[op |-> "Sweep"]}     \* a client calling CleanupExpired: the identity in the reference (KVRef), whatever it is concurrent with
 
 Init == prog = [p \in 1..NP |-> <<>>]
 Full == \A p \in 1..NP : Len(prog[p]) = NOps
